@@ -680,7 +680,7 @@ func workerFuncs(p *Prog, fn *ssa.Function) []*ssa.Function {
 		}
 		for _, e := range p.CG().Out[f] {
 			g := e.Callee
-			if g == nil || e.Dyn || e.Kind == EdgeRef || g.Blocks == nil || fnPkg(g) != fnPkg(fn) {
+			if g == nil || e.Dyn || (e.Kind != EdgeCall && e.Kind != EdgeDefer) || g.Blocks == nil || fnPkg(g) != fnPkg(fn) {
 				continue
 			}
 			if g.Signature.Recv() == nil || fn.Signature.Recv() == nil || !types.Identical(g.Signature.Recv().Type(), fn.Signature.Recv().Type()) {
